@@ -483,7 +483,7 @@ def run(ctx):
 
 
 MANIFEST_ENTRY = {
-    "technique": "static analysis: MIR data-flow pairing of indexer / table / count per locale with loop-freshness (followed into private helpers), MIR path traces of push_str / index_strings (py/mirsum.py), MIR single-writer of literal indices, traversal agreement between indexing and rendering, typed-template inspection, and the exported-JSON escaper checked against the JSON string grammar by finite character-class analysis (rules/dtable.py)",
+    "technique": "static analysis: MIR dataflow of the per-locale string indexer (fresh, consumed once, stored in the same locale, count = its length), MIR path enumeration of ParsedValue::merge (every successful merge of a renderable value indexes it), MIR path summaries of push_str / index_strings / get_strings, traversal completeness of index_strings, escaper decision table against the JSON grammar",
     "level_text": "Structural: for every locale the index space is shown to be created, filled, stored and measured from one fresh indexer; indices have one writer; the generated code is shown to carry table size and index in types; the exported file is shown to be written through an escaper whose table covers what JSON requires. No table is computed.",
     "level_note": "Trusted: const-generic array typing, JSON grammar. Not decided: StringArray::cast at run time, concrete tables.",
 }
